@@ -291,6 +291,49 @@ impl<'a> ProgGen<'a> {
         }
     }
 
+    /// replace impl parameters: by goal variables (`to_var`) or by concrete types
+    fn subst_params(&mut self, p: &ProgT, t: &TyT, map: &[TyT]) -> TyT {
+        match t {
+            TyT::Param(i) => map[*i].clone(),
+            TyT::Struct(s, args) => TyT::Struct(*s, args.iter().map(|a| self.subst_params(p, a, map)).collect()),
+            x => x.clone(),
+        }
+    }
+
+    /// a goal with unknowns shaped after an impl header (so that it usually has solutions):
+    /// parameters become unknowns or concrete types, subterms may be replaced by unknowns
+    pub fn exists_goal_from_impl(&mut self, p: &ProgT) -> GoalT {
+        if p.impls.is_empty() {
+            return self.exists_goal(p, 2);
+        }
+        let im = p.impls[self.rng.usize_below(p.impls.len())].clone();
+        let nv = 1 + self.rng.usize_below(2);
+        let vars: Vec<usize> = (0..nv).collect();
+        let map: Vec<TyT> = (0..im.nparams.max(1))
+            .map(|_| if self.rng.chance(2, 3) { TyT::GoalVar(self.rng.usize_below(nv)) } else { self.ty(p, 0, &[], 1) })
+            .collect();
+        let mut self_ty = self.subst_params(p, &im.self_ty, &map);
+        let args: Vec<TyT> = im.args.iter().map(|a| self.subst_params(p, a, &map)).collect();
+        // generalise: whole self type or one argument of it becomes an unknown
+        match self.rng.weighted(&[3, 2, 4]) {
+            0 => self_ty = TyT::GoalVar(0),
+            1 => {
+                if let TyT::Struct(s, a) = &self_ty {
+                    if !a.is_empty() {
+                        let mut a2 = a.clone();
+                        let k = self.rng.usize_below(a2.len());
+                        a2[k] = TyT::GoalVar(self.rng.usize_below(nv));
+                        self_ty = TyT::Struct(*s, a2);
+                    }
+                }
+            }
+            _ => {}
+        }
+        let atom = GoalT::Atom(WcT { ty: self_ty, tr: im.tr, args });
+        let body = if self.rng.chance(1, 4) { GoalT::And(vec![atom, GoalT::Atom(self.wc(p, 0, &vars, 1))]) } else { atom };
+        GoalT::Exists(vars, Box::new(body))
+    }
+
     /// a goal with unknowns: exists over 1-2 variables
     pub fn exists_goal(&mut self, p: &ProgT, depth: usize) -> GoalT {
         let nv = 1 + self.rng.usize_below(2);
